@@ -10,6 +10,7 @@ import (
 	"fmt"
 	"os"
 	"runtime"
+	"strings"
 	"sync"
 	"sync/atomic"
 	"time"
@@ -98,54 +99,55 @@ const (
 
 // TrialCfg describes one trial.
 type TrialCfg struct {
-	Prop      string  `json:"property"`
-	Seed      uint64  `json:"seed"`
-	Index     int     `json:"index"`
-	SizeKind  int     `json:"size_kind"` // 0 none 1 count 2 weight
-	Max       uint64  `json:"max"`
-	InitCap   int     `json:"init_cap"`
-	Exec      int     `json:"exec"`
-	G         int     `json:"goroutines"`
-	Keys      int     `json:"keys"`
-	Ops       int     `json:"ops_per_worker"`
-	Mix       []int   `json:"mix"`
-	DelayPerM int     `json:"delay_per_mille"` // probability of a delay at a yield point
-	DelayKind int     `json:"delay_kind"`
-	Churn     int     `json:"churn"` // other keys inserted and deleted by a churn goroutine
-	Stats     bool    `json:"stats"`
+	Prop       string   `json:"property"`
+	Seed       uint64   `json:"seed"`
+	Index      int      `json:"index"`
+	SizeKind   int      `json:"size_kind"` // 0 none 1 count 2 weight
+	Max        uint64   `json:"max"`
+	InitCap    int      `json:"init_cap"`
+	Exec       int      `json:"exec"`
+	G          int      `json:"goroutines"`
+	Keys       int      `json:"keys"`
+	Ops        int      `json:"ops_per_worker"`
+	Mix        []int    `json:"mix"`
+	DelayPerM  int      `json:"delay_per_mille"` // probability of a delay at a yield point
+	DelayKind  int      `json:"delay_kind"`
+	Churn      int      `json:"churn"` // other keys inserted and deleted by a churn goroutine
+	Stats      bool     `json:"stats"`
 	MaxChoices []uint64 `json:"max_choices,omitempty"`
-	Procs     int     `json:"procs,omitempty"`
-	ExpiryTTL int64   `json:"expiry_ttl,omitempty"` // > 0: write-reset expiry with this ttl and a manual clock moved by the workers
+	Procs      int      `json:"procs,omitempty"`
+	ExpiryTTL  int64    `json:"expiry_ttl,omitempty"` // > 0: write-reset expiry with this ttl and a manual clock moved by the workers
 }
 
 // Trial is a running / finished trial.
 type Trial struct {
-	Cfg     TrialCfg
-	Cache   *otter.Cache[int, int]
-	Counter *stats.Counter
-	Recs    [][]Rec // per worker
-	evs     []Ev
-	evIdx   atomic.Int64
-	base    time.Time
-	wg      sync.WaitGroup // executor tasks
-	tasks   atomic.Int64
-	hookHit [64]atomic.Int64
-	focus   int // focus site + 2 (0 = not computed yet); set before the workers start
-	tableLoaded int
-	sleeping    atomic.Int32
-	statusAtWrite [4]atomic.Int64 // drain status seen by writers between their load and their CAS
-	rngCtr  atomic.Uint64
-	stalled atomic.Bool
-	loaderV atomic.Int64
-	loads   atomic.Int64
+	Cfg            TrialCfg
+	Cache          *otter.Cache[int, int]
+	Counter        *stats.Counter
+	Recs           [][]Rec // per worker
+	evs            []Ev
+	evIdx          atomic.Int64
+	base           time.Time
+	wg             sync.WaitGroup // executor tasks
+	tasks          atomic.Int64
+	hookHit        [64]atomic.Int64
+	focus          int  // focus site + 2 (0 = not computed yet); set before the workers start
+	focusLong      bool // the focus site is a resize site of the table: some of its delays are long
+	tableLoaded    int
+	sleeping       atomic.Int32
+	statusAtWrite  [4]atomic.Int64 // drain status seen by writers between their load and their CAS
+	rngCtr         atomic.Uint64
+	stalled        atomic.Bool
+	loaderV        atomic.Int64
+	loads          atomic.Int64
 	qmu            sync.Mutex
 	queue          []func()
 	churnViolation atomic.Pointer[string]
 	churnReads     atomic.Int64
-	Clock   *phaseClock
-	bodyWrites   sync.WaitGroup // writes issued by other goroutines while an iteration holds the eviction lock
-	statSamples  atomic.Int64
-	statDecrease atomic.Pointer[string]
+	Clock          *phaseClock
+	bodyWrites     sync.WaitGroup // writes issued by other goroutines while an iteration holds the eviction lock
+	statSamples    atomic.Int64
+	statDecrease   atomic.Pointer[string]
 }
 
 func (t *Trial) now() int64 { return int64(time.Since(t.base)) }
@@ -206,9 +208,23 @@ func (t *Trial) focusSite() int {
 	}
 	f := -1
 	h := core.Mix(t.Cfg.Seed ^ 0xf0c5)
-	n := uint64(len(otter.VerifSiteNames()))
+	names := otter.VerifSiteNames()
+	n := uint64(len(names))
 	if h%3 == 0 {
 		f = int((h >> 8) % n)
+	}
+	if t.Cfg.Churn > 0 && h%3 != 2 {
+		// churn trials grow and shrink the table: two thirds of them concentrate on a yield point of the table
+		var tableSites []int
+		for i, name := range names {
+			if strings.HasPrefix(name, "map.") {
+				tableSites = append(tableSites, i)
+			}
+		}
+		if len(tableSites) > 0 {
+			f = tableSites[int((h>>8)%uint64(len(tableSites)))]
+			t.focusLong = strings.HasPrefix(names[f], "map.resize.") || names[f] == "map.compute.resizeChecked"
+		}
 	}
 	t.focus = f + 2
 	return f
@@ -237,6 +253,13 @@ func (t *Trial) hook(site int) {
 	if site == t.focusSite() {
 		if pm < 400 {
 			pm = 400
+		}
+		if t.focusLong {
+			// a resize decision held up long enough for somebody else's whole resize to happen meanwhile
+			if r := t.rnd(); r%4 == 0 {
+				time.Sleep(time.Duration((r>>24)%400+30) * time.Microsecond)
+				return
+			}
 		}
 	}
 	if pm == 0 {
